@@ -76,6 +76,9 @@ def parse_smtlib(text: str):  # noqa: C901
 
         # Close s-expression
         elif char == ')':
+            if not exprs:
+                # unmatched closing parenthesis, ignore it
+                continue
             cur_expr = exprs.pop()
 
             # Do we have nested s-expressions?
